@@ -1837,6 +1837,58 @@ fn hs_then(hs: &Handshake, accept: bool, first: &[u8], follow: &[u8], cut: Optio
 	(out, left, Some(ev))
 }
 
+/// One long-lived `Handshake` (as a node has): after every one of N outgoing handshakes the nonce it has just
+/// sent - and the previous one, the one sent 50 and the one sent 98 handshakes ago, i.e. members of the window
+/// of recent nonces the node keeps (the code's ring holds 99: it pushes, then pops once the length reaches 100) - comes back in an incoming Hand and must be refused as a connection
+/// to ourselves, with nothing written back.  N crosses the capacity of the nonce ring (100).
+fn handshake_ring(tier: Tier) -> Report {
+	uni::init_thread();
+	let mut r = Report::new();
+	let genesis = hash_of(0xaa);
+	let local = ProtocolVersion::local().value();
+	let hs = Handshake::new(genesis, P2PConfig::default());
+	let n = tier.pick(108usize, 230usize);
+	let mut sent: Vec<u64> = vec![];
+	for k in 1..=n {
+		let (out, hand) = hs_initiate(&hs, &shake_frame(local, genesis));
+		r.evaluations += 1;
+		match (out, hand) {
+			(HsOut::Ok(_), Ok(h)) => sent.push(h.nonce),
+			(o, h) => {
+				r.violation("handshake:initiate", format!("outgoing handshake {} of a long-lived node failed: {:?} {:?}", k, o, h.err()), json!({"kind": "handshake-ring", "k": k}));
+				break;
+			}
+		}
+		for back in [0usize, 1, 50, 98] {
+			if back >= k {
+				continue;
+			}
+			let nonce = sent[k - 1 - back];
+			let (out, _, pending) = hs_accept(&hs, &hand_frame(local, nonce, genesis, 40_100));
+			r.evaluations += 1;
+			r.distinct += 1;
+			r.outcome(&format!("ring:own-nonce-{}-back:{}", back, match &out { HsOut::Ok(_) => "ACCEPTED".to_string(), HsOut::Err(e) => e.clone() }));
+			if out != HsOut::Err("PeerWithSelf".into()) || pending != 0 {
+				r.violation(
+					format!("handshake:self-connect:after-many-outgoing:{}-back", back),
+					format!("after {} outgoing handshakes of one node, an incoming Hand carrying the nonce it sent {} handshakes ago was not refused as a connection to itself: {:?}, {} reply bytes", k, back, out, pending),
+					json!({"kind": "handshake-ring", "k": k, "back": back}),
+				);
+				if r.violations.len() > 8 {
+					return r;
+				}
+			}
+		}
+	}
+	let mut d = sent.clone();
+	d.sort();
+	d.dedup();
+	r.extra.insert("ring_outgoing_handshakes".into(), json!(n));
+	r.extra.insert("ring_distinct_nonces".into(), json!(d.len()));
+	r.sample(json!({"kind": "handshake-ring", "outgoing_handshakes": n, "checked_back": [0, 1, 50, 98]}));
+	r
+}
+
 fn handshake(_tier: Tier) -> Report {
 	uni::init_thread();
 	let mut r = Report::new();
@@ -2043,7 +2095,7 @@ impl Engine for C19 {
 			level: "exploration",
 			rule: Box::leak(
 				format!(
-					"exhaustive enumeration of environment decisions (short reads) on the real Codec over a loopback TcpStream; the byte stream is produced by the real Msg::new/write_message and the writer delivers the next fragment only when its send queue (TIOCOUTQ) and the reader's receive queue (FIONREAD) are empty. streams: for every group of message sequences x the group's protocol versions (of 1, 2, 3, 1000) x the unfragmented stream and every single split point of the byte stream; groups named *-2cuts: every pair of split points of every stream of at most 96 bytes. {}. {}. A case is (sequence, version, split points); all cases are distinct by construction; per-group counts are in coverage.parts.streams.group_*. limits: every type byte 0..255 x announced lengths {{0, nominal, nominal+1, 4*nominal, 4*nominal+1, 2^32, 2^64-1}}, and 4*nominal+1 with the 11-byte frame header split at each of its 10 interior points; wrong magic: every wrong value of either magic byte for types 3, 9, 11, 17, 255 and 4 wrong magics (bytes swapped, testnet, mainnet, two bit errors) for every type byte; header lists of 1, 2, 32, 33, 34 real headers announcing counts {{0, 1, n-1, n, n+1, 512, 65535}}. handshake: accept and initiate against a scripted peer for remote versions {{0, 1, 2, 3, 999, 1000, 1001, 2^32-1}} x {{same, different}} genesis, {} self-connection rounds (own nonce coming back, after 1 or 4 initiations), foreign nonce control, wrong first message (Ping, Shake/Hand, unknown type) on both sides",
+					"exhaustive enumeration of environment decisions (short reads) on the real Codec over a loopback TcpStream; the byte stream is produced by the real Msg::new/write_message and the writer delivers the next fragment only when its send queue (TIOCOUTQ) and the reader's receive queue (FIONREAD) are empty. streams: for every group of message sequences x the group's protocol versions (of 1, 2, 3, 1000) x the unfragmented stream and every single split point of the byte stream; groups named *-2cuts: every pair of split points of every stream of at most 96 bytes. {}. {}. A case is (sequence, version, split points); all cases are distinct by construction; per-group counts are in coverage.parts.streams.group_*. limits: every type byte 0..255 x announced lengths {{0, nominal, nominal+1, 4*nominal, 4*nominal+1, 2^32, 2^64-1}}, and 4*nominal+1 with the 11-byte frame header split at each of its 10 interior points; wrong magic: every wrong value of either magic byte for types 3, 9, 11, 17, 255 and 4 wrong magics (bytes swapped, testnet, mainnet, two bit errors) for every type byte; header lists of 1, 2, 32, 33, 34 real headers announcing counts {{0, 1, n-1, n, n+1, 512, 65535}}. handshake: accept and initiate against a scripted peer for remote versions {{0, 1, 2, 3, 999, 1000, 1001, 2^32-1}} x {{same, different}} genesis, {} self-connection rounds (own nonce coming back, after 1 or 4 initiations), one long-lived Handshake making 108 (thorough 230) outgoing handshakes with the nonces sent 0 / 1 / 50 / 98 handshakes ago coming back after each, foreign nonce control, wrong first message (Ping, Shake/Hand, unknown type) on both sides",
 					SETS_DOC, seqs, SELF_ROUNDS
 				)
 				.into_boxed_str(),
@@ -2064,13 +2116,14 @@ impl Engine for C19 {
 		}
 	}
 	fn parts(&self, _tier: Tier) -> Vec<(&'static str, usize)> {
-		vec![("streams", 16), ("limits", 4), ("handshake", 1), ("delays", 1)]
+		vec![("streams", 16), ("limits", 4), ("handshake", 1), ("handshake-ring", 1), ("delays", 1)]
 	}
 	fn run_part(&self, part: &str, tier: Tier, shard: usize, n: usize) -> Report {
 		match part {
 			"streams" => streams(tier, shard, n),
 			"limits" => limits(tier, shard, n),
 			"handshake" => handshake(tier),
+			"handshake-ring" => handshake_ring(tier),
 			"delays" => delays(tier),
 			_ => panic!("unknown part"),
 		}
@@ -2130,6 +2183,13 @@ impl Engine for C19 {
 				match r.violations.iter().find(|v| &v.case == case).or(r.violations.first()) {
 					Some(v) => Err(format!("{}: {}", v.key, v.what)),
 					None => Ok(format!("handshake part holds: {:?}", r.outcomes)),
+				}
+			}
+			Some("handshake-ring") => {
+				let r = handshake_ring(Tier::Quick);
+				match r.violations.iter().find(|v| &v.case == case).or(r.violations.first()) {
+					Some(v) => Err(format!("{}: {}", v.key, v.what)),
+					None => Ok(format!("handshake-ring part holds: {:?}", r.outcomes)),
 				}
 			}
 			_ => Err("unknown case kind".into()),
